@@ -32,14 +32,17 @@ type refHandle struct {
 }
 
 type ref struct {
-	hist    map[string][]refVer // committed writes per key, ascending version
-	version uint64
-	main    []refLayer // main[0] = the store's own pending writes, last = innermost nested txn
-	copies  []*refHandle
-	held    []*refHandle
+	abandoned map[string][]refVer // committed writes erased by a Rollback (never to be seen again)
+	hist      map[string][]refVer // committed writes per key, ascending version
+	version   uint64
+	main      []refLayer // main[0] = the store's own pending writes, last = innermost nested txn
+	copies    []*refHandle
+	held      []*refHandle
 }
 
-func newRef() *ref { return &ref{hist: map[string][]refVer{}, main: []refLayer{{}}} }
+func newRef() *ref {
+	return &ref{hist: map[string][]refVer{}, abandoned: map[string][]refVer{}, main: []refLayer{{}}}
+}
 
 func cloneLayer(l refLayer) refLayer {
 	o := refLayer{}
@@ -149,6 +152,8 @@ func (r *ref) rollback(t uint64) string {
 		for _, e := range vs {
 			if e.v <= t {
 				keep = append(keep, e)
+			} else {
+				r.abandoned[k] = append(r.abandoned[k], e)
 			}
 		}
 		if len(keep) == 0 {
